@@ -455,3 +455,87 @@ pub fn reimburse_exact_gas() -> String {
     let want = U256::from(1000 + 10 * 4_800);
     format!("caller_balance={} expected={} lost={}", bal, want, want.saturating_sub(bal))
 }
+
+// ---------------------------------------------------------------- every return site of the frame functions
+/// Runs every scenario of `func` and reports each as `name:before->after:kind`; the caller looks for an unbalanced one.
+pub fn frame_depth_all(func: &str) -> String {
+    let names: &[&str] = match func {
+        "make_call_frame" => &["CallTooDeep", "InvalidExtDelegateCallTarget", "Stop", "OutOfFunds", "frame", "PrecompileOk", "PrecompileFail", "PrecompileFailValue"],
+        "make_create_frame" => &["CallTooDeep", "CreateInitCodeStartingEF00", "OutOfFunds", "Return", "frame"],
+        "call_return" => &["ok", "revert", "halt"],
+        "create_return" => &["ok", "revert", "halt", "frontier_deposit_oog", "homestead_deposit_oog", "size_limit", "starts_with_ef"],
+        _ => &[],
+    };
+    let mut out = String::new();
+    for n in names {
+        let r = std::panic::catch_unwind(|| match func {
+            "make_call_frame" if n.starts_with("Precompile") => precompile_call_depth(n),
+            "make_call_frame" | "make_create_frame" => frame_depth(func, n),
+            _ => return_depth(func, n),
+        });
+        out += &format!("[{} {}] ", n, r.unwrap_or_else(|_| "panicked".into()));
+    }
+    out
+}
+
+fn precompile_call_depth(key: &str) -> String {
+    use revm::precompile::PrecompileSpecId;
+    use revm::ContextPrecompiles;
+    let mut c = ctx(SpecId::CANCUN, 10, None, 0);
+    c.set_precompiles(ContextPrecompiles::new(PrecompileSpecId::CANCUN));
+    let sha = address!("0000000000000000000000000000000000000002");
+    let (gas, value) = match key {
+        "PrecompileOk" => (100_000u64, CallValue::Transfer(U256::ZERO)),
+        "PrecompileFail" => (0, CallValue::Transfer(U256::ZERO)),
+        _ => (0, CallValue::Transfer(U256::from(1))),
+    };
+    let inputs = CallInputs {
+        input: Bytes::new(), gas_limit: gas, bytecode_address: sha, target_address: sha, caller: CALLER, value,
+        scheme: CallScheme::Call, is_eof: false, is_static: false, return_memory_offset: 0..0,
+    };
+    let before = c.inner.journaled_state.depth;
+    let r = c.make_call_frame(&inputs).expect("no db error");
+    format!("before={} after={} kind={}", before, c.inner.journaled_state.depth, kind(&r))
+}
+
+fn return_depth(func: &str, key: &str) -> String {
+    use revm::interpreter::{Gas, InstructionResult, InterpreterResult};
+    use revm::primitives::{FrontierSpec, HomesteadSpec, LondonSpec, SpuriousDragonSpec};
+    let mut c = ctx(SpecId::CANCUN, 10, None, 0);
+    let _ = c.inner.journaled_state.load_account(TARGET, &mut c.inner.db);
+    let cp = c.inner.journaled_state.checkpoint();
+    let before = c.inner.journaled_state.depth;
+    let mk = |res: InstructionResult, out: Vec<u8>, gas_left: u64| {
+        let mut g = Gas::new(100_000_000);
+        let _ = g.record_cost(100_000_000 - gas_left);
+        InterpreterResult::new(res, Bytes::from(out), g)
+    };
+    match func {
+        "call_return" => {
+            let r = match key {
+                "ok" => mk(InstructionResult::Stop, vec![], 1000),
+                "revert" => mk(InstructionResult::Revert, vec![], 1000),
+                _ => mk(InstructionResult::OutOfGas, vec![], 0),
+            };
+            c.inner.call_return(&r, cp);
+        }
+        _ => {
+            let (mut r, which) = match key {
+                "ok" => (mk(InstructionResult::Return, vec![0x00; 4], 100_000), 0),
+                "revert" => (mk(InstructionResult::Revert, vec![], 1000), 0),
+                "halt" => (mk(InstructionResult::OutOfGas, vec![], 0), 0),
+                "frontier_deposit_oog" => (mk(InstructionResult::Return, vec![0x00; 10], 0), 1),
+                "homestead_deposit_oog" => (mk(InstructionResult::Return, vec![0x00; 10], 0), 2),
+                "size_limit" => (mk(InstructionResult::Return, vec![0x00; 0x6001], 10_000_000), 3),
+                _ => (mk(InstructionResult::Return, vec![0xEF, 0x00], 100_000), 4),
+            };
+            match which {
+                1 => c.inner.create_return::<FrontierSpec>(&mut r, TARGET, cp),
+                2 => c.inner.create_return::<HomesteadSpec>(&mut r, TARGET, cp),
+                3 => c.inner.create_return::<SpuriousDragonSpec>(&mut r, TARGET, cp),
+                _ => c.inner.create_return::<LondonSpec>(&mut r, TARGET, cp),
+            }
+        }
+    }
+    format!("before={} after={} kind=return", before, c.inner.journaled_state.depth)
+}
